@@ -903,11 +903,19 @@ void vk_exec_init(void)
 
 #define SIDE_PARENT (vk_side == 0)
 
+int vk_dry_hits;
+
+/* dry mode 1: the first resource-creating call is itself a violation and ends the execution;
+ * dry mode 2: such calls are counted, not executed, and fail (EMFILE / EAGAIN) */
 static int is_dry_resource_call(const char *what)
 {
-  if (vk_cfg.dry_mode && vk_side == 0) {
+  if (vk_cfg.dry_mode == 1 && vk_side == 0) {
     vk_violation("C13", "no-side-effect", NULL, "options that must be rejected reached %s", what);
     vk_finish(OUT_DONE, "dry-mode stop at %s", what);
+  }
+  if (vk_cfg.dry_mode == 2 && vk_side == 0) {
+    vk_dry_hits++;
+    return 1;
   }
   return 0;
 }
@@ -993,7 +1001,7 @@ void vk_free(void *p)
 /* ---- descriptors ---- */
 int vk_pipe(int fds[2])
 {
-  if (SIDE_PARENT) is_dry_resource_call("pipe()");
+  if (SIDE_PARENT && is_dry_resource_call("pipe()")) { errno = EMFILE; return -1; }
   struct vk_event *e = ev_new(C_PIPE, 0, 0, 0);
   int f = fault(C_PIPE);
   if (f) { e->injected = f; errno = f; ev_done(e, -1, f); return -1; }
@@ -1012,7 +1020,7 @@ int vk_pipe(int fds[2])
 
 int vk_pipe2(int fds[2], int flags)
 {
-  if (SIDE_PARENT) is_dry_resource_call("pipe2()");
+  if (SIDE_PARENT && is_dry_resource_call("pipe2()")) { errno = EMFILE; return -1; }
   struct vk_event *e = ev_new(C_PIPE, 0, 0, flags);
   int f = fault(C_PIPE);
   if (f) { e->injected = f; errno = f; ev_done(e, -1, f); return -1; }
@@ -1076,7 +1084,7 @@ int vk_dup2(int a, int b)
   struct vk_event *e = ev_new(C_DUP2, a, b, 0);
   int f = fault(C_DUP2);
   if (f) { e->injected = f; errno = f; ev_done(e, -1, f); return -1; }
-  if (SIDE_PARENT) is_dry_resource_call("dup2()");
+  if (SIDE_PARENT && is_dry_resource_call("dup2()")) { errno = EMFILE; return -1; }
   int r = dup2(a, b);
   int er = errno;
   if (r >= 0 && a != b) fdl_open(r, C_DUP2);
@@ -1103,7 +1111,7 @@ int vk_dup(int a)
   struct vk_event *e = ev_new(C_DUP, a, 0, 0);
   int f = fault(C_DUP);
   if (f) { e->injected = f; errno = f; ev_done(e, -1, f); return -1; }
-  if (SIDE_PARENT) is_dry_resource_call("dup()");
+  if (SIDE_PARENT && is_dry_resource_call("dup()")) { errno = EMFILE; return -1; }
   int r = dup(a);
   int er = errno;
   if (r >= 0) fdl_open(r, C_DUP);
@@ -1121,7 +1129,7 @@ int vk_open(const char *path, int flags, ...)
     mode = (mode_t) va_arg(ap, int);
     va_end(ap);
   }
-  if (SIDE_PARENT) is_dry_resource_call("open()");
+  if (SIDE_PARENT && is_dry_resource_call("open()")) { errno = EMFILE; return -1; }
   struct vk_event *e = ev_new(C_OPEN, 0, flags, (long) mode);
   int f = fault(C_OPEN);
   if (f) { e->injected = f; errno = f; ev_done(e, -1, f); return -1; }
@@ -1155,7 +1163,7 @@ int vk_openat(int dirfd, const char *path, int flags, ...)
     mode = (mode_t) va_arg(ap, int);
     va_end(ap);
   }
-  if (SIDE_PARENT) is_dry_resource_call("openat()");
+  if (SIDE_PARENT && is_dry_resource_call("openat()")) { errno = EMFILE; return -1; }
   struct vk_event *e = ev_new(C_OPEN, dirfd, flags, (long) mode);
   int f = fault(C_OPEN);
   if (f) { e->injected = f; errno = f; ev_done(e, -1, f); return -1; }
@@ -1330,7 +1338,7 @@ static void libstep_gate(const char *what)
 pid_t vk_fork(void)
 {
   if (vk_side != 0) return fork();
-  is_dry_resource_call("fork()");
+  if (is_dry_resource_call("fork()")) { errno = EAGAIN; return -1; }
   struct vk_event *e = ev_new(C_FORK, 0, 0, 0);
   int f = fault(C_FORK);
   if (f) { e->injected = f; errno = f; ev_done(e, -1, f); return -1; }
